@@ -265,6 +265,78 @@ def _py(v):
     return v
 
 
+TYPED = {
+    'datetime64[ns]': lambda n: np.array([np.datetime64('2021-03-04T05:06:07.000000008') + np.timedelta64(i * 10 ** 9 + i, 'ns')
+                                          for i in range(n)], dtype='datetime64[ns]'),
+    'datetime64[D]': lambda n: np.array([np.datetime64('2021-03-04') + np.timedelta64(i, 'D') for i in range(n)]),
+    'timedelta64[ms]': lambda n: np.array([np.timedelta64(1500 * i + 7, 'ms') for i in range(n)]),
+    'complex128': lambda n: np.array([complex(i, -i - 0.5) for i in range(n)]),
+    'float32': lambda n: np.array([i + 0.25 for i in range(n)], dtype='float32'),
+    'uint8': lambda n: np.array([(200 + i) % 256 for i in range(n)], dtype='uint8'),
+    'int64_extreme': lambda n: np.array([(-2 ** 63 + i) if i % 2 else (2 ** 63 - 1 - i) for i in range(n)], dtype='int64'),
+    'uint64': lambda n: np.array([2 ** 64 - 1 - i for i in range(n)], dtype='uint64'),
+    'bool': lambda n: np.array([i % 3 == 0 for i in range(n)]),
+    'str': lambda n: np.array([f'c{i}' for i in range(n)]),
+    'bytes': lambda n: np.array([b'b%d' % i for i in range(n)]),
+    'object': lambda n: np.array([(i, 'x') if i % 2 else {'i': i} for i in range(n)] + [None], dtype=object)[:n],
+}
+
+
+def _kind_of(v):
+    import datetime
+    if isinstance(v, (datetime.datetime, np.datetime64)):
+        return 'M'
+    if isinstance(v, (datetime.timedelta, np.timedelta64)):
+        return 'm'
+    if isinstance(v, (bool, np.bool_)):
+        return 'b'
+    if isinstance(v, (int, np.integer)):
+        return 'i'
+    if isinstance(v, (float, np.floating)):
+        return 'f'
+    if isinstance(v, (complex, np.complexfloating)):
+        return 'c'
+    if isinstance(v, str):
+        return 'U'
+    if isinstance(v, bytes):
+        return 'S'
+    return 'O'
+
+
+def typed_array_case(case):
+    """An array of every element type numpy offers as the source: each cell holds ITS element - same value, same kind of
+    thing (a timestamp stays a timestamp, an unsigned 64-bit number keeps its value)."""
+    from mc.engine.seams import reset_library
+    reset_library()
+    world = mk(new_model(seed=1), case['kind'], case['dims'])
+    n = len(world.cells)
+    arr = TYPED[case['dtype']](n)
+    src = arr.copy()
+    world.add_cell_component('t', arr)
+    got = list(world.cells['t'])
+    if len(got) != n:
+        raise Violation('column length differs from the number of cells', expected=n, observed=len(got))
+    for i in range(n):
+        want = src[i]
+        wk = {'u': 'i'}.get(src.dtype.kind, src.dtype.kind) if src.dtype.kind != 'O' else _kind_of(want)
+        same = (got[i] is want) if src.dtype.kind == 'O' else bool(got[i] == want)
+        if not same or (src.dtype.kind != 'O' and _kind_of(got[i]) != wk):
+            raise Violation(f'cell {i} of a {case["dims"]} world filled from a {case["dtype"]} array holds {got[i]!r}',
+                            expected=repr(want), observed=repr(got[i]))
+    if not np.array_equal(arr, src) and src.dtype.kind != 'O':
+        raise Violation('the caller\'s array was modified')
+    arr[0] = arr[-1]          # the caller's array stays the caller's
+    if n > 1 and src.dtype.kind != 'O' and bool(list(world.cells['t'])[0] == src[-1]) and src[0] != src[-1]:
+        raise Violation(f'the column aliases the caller\'s {case["dtype"]} array')
+    return n
+
+
+def typed_array_cases():
+    for kind, dims in (('line', [5]), ('grid', [3, 2]), ('discrete', [2, 2, 2]), ('discrete', [0, 3, 0])):
+        for dt in TYPED:
+            yield {'leg': 'typed_array', 'kind': kind, 'dims': dims, 'dtype': dt}
+
+
 def big_world_case(case):
     """A world with several thousand cells and values far beyond 64 bits: every cell checked."""
     from mc.engine.seams import reset_library
@@ -309,11 +381,26 @@ def run(ctx):
             ctx.transitions += hbfs._guard(big_world_case, case)
         except Violation as v:
             ctx.report(case, v)
+    nt = 0
+    for case in typed_array_cases():
+        if ctx.violations:
+            break
+        ctx.traces += 1
+        nt += 1
+        try:
+            ctx.transitions += hbfs._guard(typed_array_case, case)
+            ctx.outcome(('typed', case['dtype'], tuple(case['dims'])))
+        except Violation as v:
+            ctx.report(case, v)
+    ctx.leg('typed_arrays', cases=nt, dtypes=sorted(TYPED))
     ctx.leg('big_worlds', note='64x64, line 5000 (thorough also 16x16x17): position-keyed values beyond 2**63, every cell')
     ctx.caps.append(f'depth bound {items[0][2]} per shape (all histories up to that depth covered)')
 
 
 def replay(case):
+    if case['leg'] == 'typed_array':
+        hbfs._guard(typed_array_case, case)
+        return
     if case['leg'] == 'big':
         hbfs._guard(big_world_case, case)
         return
